@@ -32,6 +32,7 @@ type Family struct {
 	Rule      string
 	Outside   []string // what lies outside the claim
 	Race      bool     // native replays run under the race detector
+	BudgetIsViolation bool // a path that exhausts the step budget is a non-termination candidate
 	PerInst   time.Duration
 }
 
@@ -86,6 +87,7 @@ type Runner struct {
 	Seed     int64
 	Verbose  bool
 	MaxPaths int
+	BudgetIsViolation bool
 }
 
 func (r *Runner) runOne(ex *vm.Explorer, inst *vm.Instance, perInst time.Duration) *InstResult {
@@ -100,6 +102,7 @@ func (r *Runner) runOne(ex *vm.Explorer, inst *vm.Instance, perInst time.Duratio
 		ex.Deadline = time.Time{}
 	}
 	ex.MaxPaths = r.MaxPaths
+	ex.BudgetViolations = r.BudgetIsViolation
 	valEvery := 0
 	ex.OnPath = func(e *vm.Explorer, rep *vm.PathReport) {
 		if rep.Outcome != vm.PathOK {
@@ -196,6 +199,9 @@ type ReplayFile struct {
 	Race      bool             `json:"race,omitempty"`
 }
 
+// ReplayTimeout is the go test deadline of a native replay.
+var ReplayTimeout = "20m"
+
 // NativeReplay runs cases against the natively compiled package (with the
 // harness overlay) and returns what the real code did.
 func NativeReplay(prog *vm.Program, cases []ReplayCase, race bool) ([]ReplayResult, string, error) {
@@ -223,7 +229,7 @@ func NativeReplay(prog *vm.Program, cases []ReplayCase, race bool) ([]ReplayResu
 	in, out := filepath.Join(tmp, "in.json"), filepath.Join(tmp, "out.json")
 	cb, _ := json.Marshal(cases)
 	os.WriteFile(in, cb, 0o644)
-	args := []string{"test", "-tags", "verif", "-overlay", ovPath, "-vet=off", "-count=1", "-run", "^TestVerifReplay$", "-timeout", "20m"}
+	args := []string{"test", "-tags", "verif", "-overlay", ovPath, "-vet=off", "-count=1", "-run", "^TestVerifReplay$", "-timeout", ReplayTimeout}
 	if race {
 		args = append(args, "-race")
 	}
@@ -272,7 +278,14 @@ func caseOf(id string, v vm.Violation) ReplayCase {
 	return ReplayCase{ID: id, Harness: v.Instance.Harness, Params: v.Instance.Params, Inputs: v.Inputs}
 }
 
+// violationKey identifies a violation: normally harness|instance|obligation;
+// when the obligation names a call site ("site=...") the site replaces the
+// instance, so that one defect reached through many expressions is one finding
+// while a different site is still a different finding.
 func violationKey(v vm.Violation) string {
+	if strings.HasPrefix(v.Info, "site=") {
+		return v.Instance.Harness + "|" + v.Label + "|" + v.Info
+	}
 	return v.Instance.Harness + "|" + v.Instance.ID + "|" + v.Label
 }
 
@@ -378,6 +391,7 @@ func Execute(id, tier string, seed int64, verbose bool) int {
 		qms = 120000
 	}
 	r := &Runner{Prog: prog, Workers: workers, Solver: solverChoice(), QueryMs: qms, Tier: tier, Seed: seed, Verbose: verbose, MaxPaths: 400000}
+	r.BudgetIsViolation = fam.BudgetIsViolation
 	perInst := fam.PerInst
 	if perInst == 0 {
 		perInst = 5 * time.Minute
@@ -456,6 +470,20 @@ func Execute(id, tier string, seed int64, verbose bool) int {
 		}
 	}
 
+	// monitor obligations (frame / non-interference) are not observable natively:
+	// they are handled separately from behavioural violations
+	var monitorViol []vm.Violation
+	{
+		var rest []vm.Violation
+		for _, v := range allViol {
+			if strings.HasPrefix(v.Label, "frame:") || strings.HasPrefix(v.Label, "non-interference:") || v.Label == "terminates" {
+				monitorViol = append(monitorViol, v)
+			} else {
+				rest = append(rest, v)
+			}
+		}
+		allViol = rest
+	}
 	// native replay of violations and of sampled feasibility witnesses
 	var cases []ReplayCase
 	for i, v := range allViol {
@@ -514,7 +542,7 @@ func Execute(id, tier string, seed int64, verbose bool) int {
 		}
 		newViol++
 		fmt.Printf("VIOLATION property=%s replay=%s\n", id, path)
-		fmt.Printf("  instance: %s\n  obligation: %s\n  detail: %s\n", v.Instance.ID, v.Label, v.Info)
+		fmt.Printf("  instance: %s\n  obligation: %s\n  detail: %s %s\n", v.Instance.ID, v.Label, v.Info, strings.Join(v.Notes, "; "))
 	}
 	for i, v := range valModels {
 		n := byID[fmt.Sprintf("val-%d", i)]
@@ -522,6 +550,114 @@ func Execute(id, tier string, seed int64, verbose bool) int {
 			validated++
 		} else {
 			mismatches = append(mismatches, fmt.Sprintf("validation %s: executor predicted %v, native run gave %v (escaped=%q)", v.Instance.ID, v.Observed, n.Observations, n.Escaped))
+		}
+	}
+
+	// frame condition (C04): a value-changing store to shared state. It is the
+	// inductive half of the claim; alone it is not a behavioural counterexample, so
+	// the instance is re-explored with a longer history to look for one.
+	frameFindings := []string{}
+	unconfirmed := []string{}
+	seenMon := map[string]bool{}
+	var deepen []*vm.Instance
+	for _, v := range monitorViol {
+		key := keyToken(violationKey(v))
+		if seenMon[key] {
+			continue
+		}
+		seenMon[key] = true
+		if strings.HasPrefix(v.Label, "frame:") {
+			frameFindings = append(frameFindings, v.Instance.ID+": "+v.Info)
+			fmt.Printf("FRAME-CONDITION property=%s instance=%q shared state modified: %s\n", id, v.Instance.ID, v.Info)
+			d := *v.Instance
+			d.Params = map[string]string{}
+			for k, val := range v.Instance.Params {
+				d.Params[k] = val
+			}
+			d.Params["steps"] = "3"
+			d.ID = v.Instance.ID + " (history 3)"
+			deepen = append(deepen, &d)
+			continue
+		}
+		// non-interference (C05): replay the witness from 4 goroutines under the race detector;
+		// non-termination candidates: replay alone, the test deadline is the judge
+		rc := caseOf(key, v)
+		ReplayTimeout = "20m"
+		if v.Label == "terminates" {
+			ReplayTimeout = "20s"
+		}
+		nres, rlog, err := NativeReplay(prog, []ReplayCase{rc}, v.Label != "terminates")
+		ReplayTimeout = "20m"
+		raced := strings.Contains(rlog, "DATA RACE")
+		failed := err != nil
+		if v.Label == "terminates" {
+			failed = strings.Contains(rlog, "test timed out")
+			raced = false
+		}
+		for _, n := range nres {
+			if len(n.Failed) > 0 || n.Escaped != "" {
+				failed = true
+			}
+		}
+		if raced || failed {
+			confirmed++
+			rf := ReplayFile{Property: id, Key: key, Label: v.Label, Info: v.Info, Case: rc, Predicted: v.Observed, Race: true}
+			b, _ := json.MarshalIndent(rf, "", " ")
+			path := filepath.Join(VerifDir, "replays", id, shortHash(key)+".json")
+			os.WriteFile(path, b, 0o644)
+			if k, ok := knownKeys[key]; ok {
+				knownHits[key] = true
+				fmt.Printf("KNOWN-FINDING: property=%s %s (%s)\n", id, k.Desc, key)
+				continue
+			}
+			newViol++
+			fmt.Printf("VIOLATION property=%s replay=%s\n", id, path)
+			fmt.Printf("  instance: %s\n  obligation: %s\n  detail: %s\n  race detector: %v\n", v.Instance.ID, v.Label, v.Info, raced)
+		} else {
+			unconfirmed = append(unconfirmed, v.Instance.ID+": "+v.Info)
+		}
+	}
+	if len(deepen) > 0 {
+		dres := r.RunAll(deepen, perInst)
+		var dv []vm.Violation
+		for _, res := range dres {
+			for _, v := range res.Viol {
+				if !strings.HasPrefix(v.Label, "frame:") {
+					dv = append(dv, v)
+				}
+			}
+		}
+		var dcases []ReplayCase
+		for i, v := range dv {
+			dcases = append(dcases, caseOf(fmt.Sprintf("deep-%d", i), v))
+		}
+		dn, _, derr := NativeReplay(prog, dcases, false)
+		if derr == nil {
+			got := map[string]ReplayResult{}
+			for _, n := range dn {
+				got[n.ID] = n
+			}
+			for i, v := range dv {
+				n := got[fmt.Sprintf("deep-%d", i)]
+				key := keyToken(violationKey(v))
+				if !sameObs(n.Observations, v.Observed) || seenKeys[key] {
+					continue
+				}
+				seenKeys[key] = true
+				confirmed++
+				rf := ReplayFile{Property: id, Key: key, Label: v.Label, Info: v.Info, Case: caseOf(key, v), Predicted: v.Observed}
+				b, _ := json.MarshalIndent(rf, "", " ")
+				path := filepath.Join(VerifDir, "replays", id, shortHash(key)+".json")
+				os.WriteFile(path, b, 0o644)
+				if k, ok := knownKeys[key]; ok {
+					knownHits[key] = true
+					fmt.Printf("KNOWN-FINDING: property=%s %s (%s)\n", id, k.Desc, key)
+					continue
+				}
+				newViol++
+				fmt.Printf("VIOLATION property=%s replay=%s\n", id, path)
+				fmt.Printf("  instance: %s\n  obligation: %s\n  detail: %s\n", v.Instance.ID, v.Label, v.Info)
+			}
 		}
 	}
 
@@ -569,6 +705,8 @@ func Execute(id, tier string, seed int64, verbose bool) int {
 			"violations_confirmed_natively": confirmed,
 			"encoder_mismatches":            mismatches,
 			"known_findings_hit":            len(knownHits),
+			"frame_condition_failures":      frameFindings,
+			"unconfirmed_monitor_findings":  unconfirmed,
 			"exhaustive":                    false,
 		},
 	}
@@ -578,13 +716,24 @@ func Execute(id, tier string, seed int64, verbose bool) int {
 	}
 	fmt.Printf("property=%s tier=%s instances=%d paths=%d obligations=%d discharged=%d nontrivial=%d queries=%d (sat %d unsat %d unknown %d) solver=%.1fs wall=%.1fs validated=%d canaries=%d/%d\n",
 		id, tier, evaluations, paths, obligations, held, nontriv, queries, nsat, nunsat, nunknown, solverS, time.Since(t0).Seconds(), validated, canaryOK, len(fam.Canaries))
+	code := 0
+	if len(mismatches) > 0 {
+		for i, mm := range mismatches {
+			if i < 20 {
+				if len(mm) > 1500 {
+					mm = mm[:1500] + "…"
+				}
+				fmt.Printf("ENCODER-MISMATCH property=%s %s\n", id, mm)
+			}
+		}
+		code = 2
+	}
 	if newViol > 0 {
 		return 1
 	}
-	code := 0
-	if len(mismatches) > 0 {
-		for _, mm := range mismatches {
-			fmt.Printf("ENCODER-MISMATCH property=%s %s\n", id, mm)
+	if len(unconfirmed) > 0 {
+		for _, u := range unconfirmed {
+			fmt.Printf("INCONCLUSIVE property=%s unlocked shared store not confirmed by the race detector: %s\n", id, u)
 		}
 		code = 2
 	}
